@@ -12,4 +12,4 @@ CONSTANTS
   CheckSplit = FALSE
   KindN = 2
   FewSubsets = TRUE
-  RootEdges = TRUE
+  RootN = 2
